@@ -25,6 +25,10 @@ pub enum Op {
     /// resolve transport dial k with `peer`, poll the Swarm ONCE (the task queues its report), call
     /// disconnect_peer_id(dp), then poll to quiescence
     Race { k: usize, peer: usize, deny: bool, dp: usize },
+    /// close_connection(c) while the muxer's poll_close is held pending
+    CloseHold { c: usize },
+    /// let the held muxer finish closing
+    Release { c: usize },
 }
 
 pub fn peers() -> Vec<PeerId> {
@@ -104,6 +108,8 @@ impl Op {
             Op::ExpireAddr { a } => format!("expire {}", maddr_tok(a)),
             Op::BehClose { peer, one } => format!("behClose {peer} {}", one.map(|c| c.to_string()).unwrap_or("all".into())),
             Op::Race { k, peer, deny, dp } => format!("race {k} {peer} {} {dp}", *deny as u8),
+            Op::CloseHold { c } => format!("closeHold {c}"),
+            Op::Release { c } => format!("release {c}"),
         }
     }
     pub fn parse(t: &[String]) -> Op {
@@ -131,6 +137,8 @@ impl Op {
             "expire" => Op::ExpireAddr { a: parse_maddr(&t[1]) },
             "behClose" => Op::BehClose { peer: n(1), one: if t[2] == "all" { None } else { Some(n(2)) } },
             "race" => Op::Race { k: n(1), peer: n(2), deny: t[3] == "1", dp: n(4) },
+            "closeHold" => Op::CloseHold { c: n(1) },
+            "release" => Op::Release { c: n(1) },
             other => panic!("replay: unknown op {other}"),
         }
     }
@@ -146,6 +154,10 @@ pub struct Runner {
     pub mux_of_conn: HashMap<usize, std::sync::Arc<std::sync::Mutex<MuxState>>>,
     /// connection name owning the k-th transport dial / incoming
     pub n_incoming: usize,
+    /// connections whose close is being held (closing, not yet closed)
+    pub held: Vec<usize>,
+    /// peer of every established connection (by connection name)
+    pub peer_of_conn: HashMap<usize, usize>,
 }
 
 impl Runner {
@@ -172,7 +184,7 @@ impl Runner {
         let listener = sim.swarm.listen_on("/ip4/10.9.9.9/tcp/9".parse().unwrap()).unwrap();
         sim.settle();
         sim.take_log();
-        Runner { sim, peers, listener, script: script.unwrap(), queue: queue.unwrap(), mux_of_conn: HashMap::new(), n_incoming: 0 }
+        Runner { sim, peers, listener, script: script.unwrap(), queue: queue.unwrap(), mux_of_conn: HashMap::new(), n_incoming: 0, held: vec![], peer_of_conn: HashMap::new() }
     }
 
     fn real_conn(&self, c: usize) -> Option<ConnectionId> {
@@ -184,8 +196,9 @@ impl Runner {
         if let Some(st) = st {
             for l in log {
                 let f: Vec<&str> = l.split(',').collect();
-                if f.len() > 2 && f[0] == "s" && f[1] == "Established" {
+                if f.len() > 3 && f[0] == "s" && f[1] == "Established" {
                     self.mux_of_conn.insert(f[2].parse().unwrap(), st.clone());
+                    self.peer_of_conn.insert(f[2].parse().unwrap(), f[3].parse().unwrap());
                 }
             }
         }
@@ -278,6 +291,29 @@ impl Runner {
             Op::ExpireAddr { a } => {
                 let l = self.listener;
                 self.sim.push_transport_event(TransportEvent::AddressExpired { listener_id: l, listen_addr: a.clone() });
+            }
+            Op::CloseHold { c } => {
+                if let Some(m) = self.mux_of_conn.get(c) {
+                    m.lock().unwrap().hold_close = true;
+                }
+                let r = match self.real_conn(*c) {
+                    Some(id) => self.sim.swarm.close_connection(id),
+                    None => false,
+                };
+                if r {
+                    self.held.push(*c);
+                }
+                res = format!("res={}", r);
+            }
+            Op::Release { c } => {
+                if let Some(m) = self.mux_of_conn.get(c) {
+                    let mut st = m.lock().unwrap();
+                    st.hold_close = false;
+                    if let Some(w) = st.close_waker.take() {
+                        w.wake();
+                    }
+                }
+                self.held.retain(|x| x != c);
             }
             Op::Race { k, peer, deny, dp } => {
                 self.script.lock().unwrap().deny_est_out = *deny;
@@ -382,7 +418,28 @@ impl Gen {
         }
         v
     }
+    /// While a connection of peer p is held closing, ops that close / disconnect p's connections are
+    /// not generated (the step-mode model has no notion of "close requested twice").
     pub fn next(&self, rng: &mut Rng, r: &Runner) -> Op {
+        loop {
+            let op = self.next_raw(rng, r);
+            let held_peers: Vec<usize> = r.held.iter().filter_map(|c| r.peer_of_conn.get(c).copied()).collect();
+            let touches = |p: usize| held_peers.contains(&p);
+            let conn_peer = |c: &usize| r.peer_of_conn.get(c).copied();
+            let bad = match &op {
+                Op::Close { c } | Op::RemoteClose { c } | Op::CloseHold { c } => conn_peer(c).map(touches).unwrap_or(false),
+                Op::Disconnect { peer } => touches(*peer),
+                Op::BehClose { peer, one } => touches(*peer) || one.as_ref().and_then(conn_peer).map(touches).unwrap_or(false),
+                Op::Race { dp, .. } => touches(*dp),
+                _ => false,
+            };
+            if !bad {
+                return op;
+            }
+        }
+    }
+
+    fn next_raw(&self, rng: &mut Rng, r: &Runner) -> Op {
         let n_dials = r.sim.tstate.lock().unwrap().dials.len();
         let n_conns = r.sim.world.lock().unwrap().conn_names.len();
         let some_conn = |rng: &mut Rng| if n_conns == 0 { 0 } else { rng.usize(n_conns + 1) };
@@ -445,7 +502,14 @@ impl Gen {
             75..=77 => Op::FailIn { k: if r.n_incoming == 0 { 0 } else { rng.usize(r.n_incoming + 1) } },
             78..=83 => Op::Close { c: some_conn(rng) },
             84..=88 => Op::Disconnect { peer: 1 + rng.usize(3) },
-            89..=90 => Op::RemoteClose { c: some_conn(rng) },
+            89 => Op::RemoteClose { c: some_conn(rng) },
+            90 => {
+                if !r.held.is_empty() && rng.chance(2, 3) {
+                    Op::Release { c: *rng.pick(&r.held) }
+                } else {
+                    Op::CloseHold { c: some_conn(rng) }
+                }
+            }
             91..=92 => Op::Race {
                 k: if n_dials == 0 { 0 } else { rng.usize(n_dials + 1) },
                 peer: 1 + rng.usize(3),
